@@ -318,8 +318,8 @@ func main() {
 		depth          int
 	}
 	cfgs := []cfg{
-		{[]string{"x", "y"}, []string{"x", "y"}, 7},
-		{[]string{"x"}, []string{"x", "y"}, 6},
+		{[]string{"x", "y"}, []string{"x", "y"}, 8},
+		{[]string{"x"}, []string{"x", "y"}, 7},
 	}
 	budget := 50 * time.Second
 	if run.Thorough() {
